@@ -73,8 +73,8 @@ class RL:
             out["err"] = resp.get("err", "")
         return out
 
-    def cmd(self, obj, timeout=60.0):
-        return self.r.cmd(obj, timeout)
+    def cmd(self, obj, timeout=60.0, **kw):
+        return self.r.cmd(obj, timeout, **kw)
 
     def close(self):
         self.r.close()
